@@ -1,20 +1,255 @@
-import ZCV.Model.Matcher
+import ZCV.Lemmas.NoInternalLoader
+import ZCV.Lemmas.NoInternalLower
+import ZCV.Lemmas.NoInternalSchemaless
+import ZCV.Lemmas.NoInternalExamples
+/-!
+# C07 — user input can only produce configuration errors, never internal exceptions
+
+The models make every partial Python operation explicit: `Fail.internal exc` is "a Python exception outside the ZConfig
+error family escaped" (TypeError, KeyError, IndexError, AttributeError, RecursionError, NotImplementedError …);
+`Fail.dtExc` is an exception raised by a datatype function itself (allowed to pass through by the property).
+
+Main statements
+* `C07_no_internal` — `load` (the `ConfigLoader` / `ExtendedConfigLoader` model: parser, matcher, option bags,
+  `%define` / `%import` / `%include`) never ends in `.internal`, over ALL texts, ALL override lists, ALL datatype
+  tables and ALL include graphs, under four hypotheses, each of which is shown necessary by a closed counterexample below;
+* `C07_outcomes` — the same in positive form;
+* `C07_schemaless_no_internal` — the schema-less loader: only the deliberate `NotImplementedError`, and only for a
+  text with a `%define` / `%include` line;
+* `C07_parser_no_internal` — the parser alone, for an arbitrary context.
+
+Proofs: `ZCV/Lemmas/NoInternal*.lean`.
+-/
 namespace ZCV.Props.C07
 open ZCV ZCV.Cfg
 
+/-! ## the loader with a schema -/
+
 /-- the directive names `handle_directive` lets through all have a handler method: with the *generated* tuple,
     reading one line can never end in the AttributeError of a missing `handle_<name>` -/
-theorem C07_lineShape_no_internal (l : Str) (e : String) : lineShape l ≠ .internal e := by
-  unfold lineShape
-  dsimp only
-  repeat' split
-  all_goals first
-    | (intro h; cases h; done)
-    | skip
-  rename_i name arg hdir harg h1 h2 h3
-  have hd : Gen.directives = ["define".toList, "import".toList, "include".toList] := rfl
-  rw [hd] at hdir
-  simp only [List.contains_cons, List.contains_nil, Bool.or_false, Bool.not_eq_true', Bool.or_eq_false_iff] at hdir
-  simp_all
+theorem C07_lineShape_no_internal (l : Str) (e : String) : lineShape l ≠ .internal e :=
+  lineShape_no_internal l e
+
+/-- **No input produces an internal exception.**  Whatever the text `lines` of the configuration, whatever the texts of
+    the resources it includes (`env.res`), whatever the command-line override specifiers `ovs`, whatever the datatype
+    functions do (`conv`; they may reject with ValueError or raise anything else, which passes through as `.dtExc`),
+    loading never ends in a Python exception outside the ZConfig error family, provided
+
+    * `hs`: the schema is well-formed in the sense of `schemaWF` — the schema-independent part of `schemaOK`, which the
+      schema loader guarantees (distinct attribute names per type, a key is stored under its own non-empty name, a
+      required single key has no default, a concrete type is stored under its own name);
+    * `hp`: so are the types of every schema component a `%import` can bring in;
+    * `henv.resolved`: resolving an `%include` argument always answers (`.unknown` only marks arguments outside the
+      table the test harness computed);
+    * `henv.bounded`, `hlen`: the resources that can be opened have non-empty URLs out of a list of at most 64 (the model
+      represents Python's recursion limit by 64 nested includes; nesting cannot exceed the number of distinct resources
+      because a resource that is already being read is refused — which the loader only checks for non-empty URLs).
+
+    No hypothesis on the text, the overrides, the datatypes, the include graph (cycles included), `%define`s or the
+    environment variables. -/
+theorem C07_no_internal (conv : Conv) (env : Env) (pkgs : Str → Pkg) (s : Schema) (url : Option Str)
+    (lines : List Str) (ovs : List Str) (urls : List Str)
+    (hs : schemaWF s = true) (hp : ∀ p, pkgWF (pkgs p) = true) (henv : EnvOK env urls) (hlen : urls.length ≤ 64)
+    (e : String) : load conv env pkgs s url lines ovs ≠ .error (.internal e) :=
+  load_no_internal lower_idem conv env pkgs s url lines ovs urls hs hp henv hlen e
+
+/-- the same for a schema that passes the full structural check `schemaOK` (what the harness verifies on every schema) -/
+theorem C07_no_internal_schemaOK (conv : Conv) (env : Env) (pkgs : Str → Pkg) (s : Schema) (url : Option Str)
+    (lines : List Str) (ovs : List Str) (urls : List Str)
+    (hs : Conf.schemaOK s = true) (hp : ∀ p, pkgWF (pkgs p) = true) (henv : EnvOK env urls) (hlen : urls.length ≤ 64)
+    (e : String) : load conv env pkgs s url lines ovs ≠ .error (.internal e) :=
+  C07_no_internal conv env pkgs s url lines ovs urls (schemaOK_schemaWF s hs) hp henv hlen e
+
+/-- positive form: a load returns a configuration, or raises an exception of the configuration-error family, or lets an
+    exception of a datatype function through -/
+theorem C07_outcomes (conv : Conv) (env : Env) (pkgs : Str → Pkg) (s : Schema) (url : Option Str)
+    (lines : List Str) (ovs : List Str) (urls : List Str)
+    (hs : schemaWF s = true) (hp : ∀ p, pkgWF (pkgs p) = true) (henv : EnvOK env urls) (hlen : urls.length ≤ 64) :
+    (∃ r, load conv env pkgs s url lines ovs = .ok r) ∨
+    (∃ err, load conv env pkgs s url lines ovs = .error (.cfg err)) ∨
+    (∃ n, load conv env pkgs s url lines ovs = .error (.dtExc n)) := by
+  have h := C07_no_internal conv env pkgs s url lines ovs urls hs hp henv hlen
+  cases hl : load conv env pkgs s url lines ovs with
+  | ok r => exact .inl ⟨r, rfl⟩
+  | error f =>
+    cases f with
+    | cfg err => exact .inr (.inl ⟨err, rfl⟩)
+    | dtExc n => exact .inr (.inr ⟨n, rfl⟩)
+    | internal x => exact absurd hl (h x)
+
+/-- without `%include` in play (nothing can be opened) the two resource hypotheses reduce to "`resolve` answers" -/
+theorem C07_no_internal_no_resources (conv : Conv) (env : Env) (pkgs : Str → Pkg) (s : Schema) (url : Option Str)
+    (lines : List Str) (ovs : List Str)
+    (hs : schemaWF s = true) (hp : ∀ p, pkgWF (pkgs p) = true)
+    (hres : ∀ b a, env.resolve b a ≠ .unknown) (hnone : ∀ u, env.res u = none)
+    (e : String) : load conv env pkgs s url lines ovs ≠ .error (.internal e) :=
+  C07_no_internal conv env pkgs s url lines ovs [] hs hp
+    ⟨hres, fun _ _ u _ ho => by rw [hnone u] at ho; cases ho⟩ (Nat.zero_le _) e
+
+/-! ### the hypotheses are satisfiable by non-trivial instances -/
+
+namespace Sat
+open ZCV.Cfg.Ex
+
+example : schemaWF sNice = true := by decide
+example : Conf.schemaOK sNice = true := by decide
+/-- a component that is fine -/
+example : pkgWF (.component "u".toList [("t".toList, .concrete (sty "t".toList []))] []) = true := by decide
+example : ∀ p, pkgWF (pkgs0 p) = true := fun _ => rfl
+/-- an include environment with 65 resources satisfies `EnvOK` (so `hlen` is the only hypothesis it violates) -/
+example : EnvOK envChain chain := envChain_ok.1
+/-- one with nothing to include -/
+example : EnvOK env0 [] := ⟨fun _ _ h => (by cases h), fun _ _ _ _ ho => (by cases ho)⟩
+
+/-- and loads do succeed: the empty text against the empty schema -/
+example : ∃ r, load conv0 env0 pkgs0 sEmpty none [] [] = .ok r := by
+  rw [load_no_overrides]
+  unfold loadTail
+  simp only [parseLines_nil]
+  exact ⟨_, rfl⟩
+
+end Sat
+
+/-! ### each hypothesis is needed (closed counterexamples) -/
+
+namespace Needed
+open ZCV.Cfg.Ex
+
+/-- `hs`, "a required single key has no default": `default[:]` on a ValueInfo raises TypeError when the key is missing.
+    (Empty text, no overrides, nothing importable or includable.) -/
+example : load conv0 env0 pkgs0 (sch [(some "k".toList, .key (key1 "k" "k" false 1 (.one vi0)))] []) none [] [] =
+    .error (.internal "TypeError") := by
+  rw [load_no_overrides]
+  unfold loadTail
+  simp only [parseLines_nil]
+  rfl
+example : schemaWF (sch [(some "k".toList, .key (key1 "k" "k" false 1 (.one vi0)))] []) = false := by decide
+
+/-- `hs`, "distinct attribute names": a key and a multikey sharing the attribute `x` — the multikey finds the other's
+    `None` where it expects its list. -/
+example : load conv0 env0 pkgs0
+    (sch [(some "a".toList, .key (key1 "a" "x" false 0 .none)), (some "b".toList, .key (key1 "b" "x" true 0 (.many [])))] [])
+    none [] [] = .error (.internal "TypeError") := by
+  rw [load_no_overrides]
+  unfold loadTail
+  simp only [parseLines_nil]
+  rfl
+example : schemaWF
+    (sch [(some "a".toList, .key (key1 "a" "x" false 0 .none)), (some "b".toList, .key (key1 "b" "x" true 0 (.many [])))] [])
+    = false := by decide
+
+/-- `hs`, "a key is stored under its own name": a key child without a key is taken for a section slot by
+    `getsectioninfo` (`info.sectiontype` on a KeyInfo: AttributeError) as soon as the text opens a section. -/
+example : load conv0 env0 pkgs0 sWrongKey none ["<a/>".toList] [] = .error (.internal "AttributeError") :=
+  wrongKey_counterexample
+example : schemaWF sWrongKey = false := by decide
+
+/-- `hs`, "a concrete type is stored under its own name": the table maps `a` to a type that calls itself `b`; both
+    implement the abstract type of the only section slot.  `<a/>` is accepted, its value is labelled `b`, and when the
+    schema matcher finishes, `gettype("b")` for the section datatype finds nothing the loader expects. -/
+example : load conv0 env0 pkgs0 sMisnamed none ["<a/>".toList] [] = .error (.internal "AttributeError") :=
+  misnamed_counterexample
+example : schemaWF sMisnamed = false := by decide
+
+/-- `hp`: the application schema is fine, the imported component declares a type with a required key that has a
+    default; the text imports the component and uses the type (`%import p`, then `<t/>`). -/
+example : load conv0 env0 pkgsBad sHost none ["%import p".toList, "<t/>".toList] [] = .error (.internal "TypeError") :=
+  pkg_counterexample
+example : schemaWF sHost = true := by decide
+example : pkgWF (pkgsBad []) = false := by decide
+
+/-- `henv.resolved`: an include argument outside the harness table. -/
+example : load conv0 { env0 with resolve := fun _ _ => .unknown } pkgs0 sEmpty none [inc] [] =
+    .error (.internal "unresolved-by-harness") := by
+  rw [load_no_overrides]
+  unfold loadTail
+  simp only [parseLines_cons, incStep_inc _ _ loaderCtx rfl]
+  rfl
+
+/-- `henv.bounded`, "non-empty URL": a resource whose URL is the empty string and which includes itself is never
+    refused ("resource includes itself" is only tested for a true `resource.url`), the nesting is unbounded.
+    Every other hypothesis holds (`urls := [[]]`). -/
+example : load conv0 envSelf pkgs0 sEmpty none [inc] [] = .error (.internal "RecursionError") := by
+  rw [load_no_overrides]
+  unfold loadTail
+  simp only [bind, Except.bind]
+  rw [self_runs_out loaderCtx rfl]
+example : (∀ b a, envSelf.resolve b a ≠ .unknown) ∧
+    (∀ b a u, envSelf.resolve b a = .url u → (envSelf.res u).isSome = true → u ∈ [([] : Str)]) :=
+  ⟨fun _ _ h => (by cases h), fun _ _ u h _ => (by cases h; exact List.mem_cons_self)⟩
+
+/-- `hlen`: 65 resources `x`, `xx`, … each including the next exhaust the 64 levels of the model: the bound is tight
+    (`envChain` satisfies `EnvOK` with a list of 65 URLs, see `Sat`). -/
+example : load conv0 envChain pkgs0 sEmpty none [inc] [] = .error (.internal "RecursionError") := by
+  rw [load_no_overrides]
+  unfold loadTail
+  simp only [parseLines_cons, incStep_inc _ _ loaderCtx rfl]
+  have hres : envChain.resolve none "y".toList = .url (List.replicate 1 'x') := rfl
+  have hopen : envChain.res (List.replicate 1 'x') = some [inc] := by
+    simp only [envChain, chain_mem 0 (by omega), if_true]
+  rw [hres]
+  simp only
+  rw [hopen]
+  simp only [List.contains_nil, Bool.and_false, Bool.false_eq_true, if_false]
+  rw [chain_runs_out loaderCtx rfl 63 1 _ _ rfl (by intro a ha; simp at ha; subst ha; simp)]
+  rfl
+example : chain.length = 65 := envChain_ok.2
+
+end Needed
+
+/-! ## the schema-less loader -/
+
+/-- **Schema-less loader**: the only internal outcome of `schemaless.loadConfigFile` is the deliberate
+    `NotImplementedError`, and it needs a `%define` or `%include` line in the text. -/
+theorem C07_schemaless_no_internal (getenv : Str → Option Str) (url : Option Str) (lines : List Str) (e : String)
+    (h : slLoad getenv url lines = .error (.internal e)) :
+    e = "NotImplementedError" ∧ ∃ l ∈ lines, ∃ a, lineShape (strip l) = .define a ∨ lineShape (strip l) = .include_ a :=
+  slLoad_internal getenv url lines e h
+
+/-- a text without `%define` and `%include` lines never makes the schema-less loader fail internally -/
+theorem C07_schemaless_plain_no_internal (getenv : Str → Option Str) (url : Option Str) (lines : List Str)
+    (hplain : ∀ l ∈ lines, ∀ a, lineShape (strip l) ≠ .define a ∧ lineShape (strip l) ≠ .include_ a) (e : String) :
+    slLoad getenv url lines ≠ .error (.internal e) := by
+  intro h
+  obtain ⟨_, l, hl, a, ha⟩ := C07_schemaless_no_internal getenv url lines e h
+  rcases ha with ha | ha
+  · exact (hplain l hl a).1 ha
+  · exact (hplain l hl a).2 ha
+
+/-- the exception is real: `%define` makes the schema-less loader raise `NotImplementedError` (and so does `%include`) -/
+example : slLoad (fun _ => none) none ["%define a b".toList] = .error (.internal "NotImplementedError") := by
+  unfold slLoad
+  have hs : lineShape (strip "%define a b".toList) = .define "a b".toList := shape_define _ _ (by decide) (by decide)
+  simp only [parseLines_cons, stepLine_define _ _ _ _ _ _ _ _ _ hs]
+  rfl
+
+/-- an ordinary text is loaded -/
+example : ∃ r, slLoad (fun _ => none) none [] = .ok r := by
+  unfold slLoad
+  simp only [parseLines_nil]
+  exact ⟨_, rfl⟩
+
+/-! ## the parser alone -/
+
+/-- **The parser for an arbitrary context** (`ZConfigParser` driving any object with `startSection` / `endSection` /
+    `addValue` / `importSchemaComponent`): if the four callbacks never raise an internal exception on states satisfying
+    an invariant `Inv n` (`n` = sections that may still be closed) and preserve it, a parse from a state satisfying
+    `Inv st.stack.length` — over any text and include graph, with enough fuel for the resources not yet being read —
+    never ends in an internal exception other than the `NotImplementedError` of a context that refuses `%define` or
+    `%include`; and a successful parse ends with all sections closed, in a state satisfying `Inv 0`. -/
+theorem C07_parser_no_internal {σ} (c : PCtx σ) (Inv : Nat → σ → Prop) (hc : CtxOK c Inv) (env : Env) (urls : List Str)
+    (henv : c.canInclude = true → EnvOK env urls) (fuel : Nat) (active : List Str) (url : Option Str) (lines : List Str)
+    (n : Nat) (st : PS σ) (hfuel : (urls.filter fun u => !active.contains u).length ≤ fuel)
+    (hinv : Inv st.stack.length st.ctx) :
+    (∀ e, parseLines fuel env c active url lines n st = .error (.internal e) →
+      e = "NotImplementedError" ∧ (c.canDefine = false ∨ c.canInclude = false)) ∧
+    (∀ st', parseLines fuel env c active url lines n st = .ok st' → st'.stack = [] ∧ Inv 0 st'.ctx) := by
+  obtain ⟨h1, h2⟩ := parseLines_no_internal c Inv hc env urls henv fuel active url lines n st 0 hfuel
+    (by rw [Nat.zero_add]; exact hinv)
+  exact ⟨fun e h => (h1 e h).1, h2⟩
+
+/-- the two contexts of the library satisfy the hypothesis on the callbacks -/
+example : CtxOK loaderCtx LSInv := loaderCtx_ok lower_idem
+example : CtxOK schemalessCtx SLInv := schemalessCtx_ok
 
 end ZCV.Props.C07
